@@ -404,6 +404,23 @@ def run_model_constfns(ctx):
         fa = numpy.array([n / d for n, d in pa]); fb = numpy.array([n / d for n, d in pb])
         reqs.append({"op": "constfn", "fn": "isclose", "a": [list(x) for x in pa], "b": [list(x) for x in pb], "rtol": list(rtol), "atol": list(atol)})
         wants.append({"values": [bool(x) for x in numpy.isclose(fa, fb, rtol=rtol[0] / rtol[1], atol=atol[0] / atol[1])]})
+    # element-wise functions with broadcasting (Np/Model/ElemFns.lean)
+    fns = {"add": numpy.add, "subtract": numpy.subtract, "multiply": numpy.multiply, "maximum": numpy.maximum, "minimum": numpy.minimum,
+           "floor_divide": numpy.floor_divide, "remainder": numpy.remainder, "equal": numpy.equal, "not_equal": numpy.not_equal,
+           "less": numpy.less, "less_equal": numpy.less_equal, "greater": numpy.greater, "greater_equal": numpy.greater_equal,
+           "logical_and": numpy.logical_and, "logical_or": numpy.logical_or, "logical_xor": numpy.logical_xor, "power": numpy.power}
+    for sa, sb in [((3,), (3,)), ((2, 1), (3,)), ((), (2, 2)), ((2, 3), (3,)), ((1, 2, 1), (2, 1, 3)), ((2,), (3,)), ((2, 2), (3, 2)), ((), ())]:
+        x = rng.integers(-4, 5, size=sa); y = rng.integers(-3, 4, size=sb)
+        for fn, f in fns.items():
+            yy = numpy.abs(y) if fn == "power" else y
+            try:
+                with numpy.errstate(all="ignore"):
+                    out = numpy.asarray(f(x, yy))
+                want = {"shape": list(out.shape), "values": [v.item() for v in out.ravel()]}
+            except ValueError:
+                want = {"kind": "none"}
+            reqs.append({"op": "elemfn", "fn": fn, "sa": list(sa), "sb": list(sb), "xs": [int(v) for v in x.ravel()], "ys": [int(v) for v in yy.ravel()]})
+            wants.append(want)
     bad = []
     for k, (req, want, ans) in enumerate(zip(reqs, wants, run_driver([dict(r, id=i) for i, r in enumerate(reqs)]))):
         ctx.count("model-constfn")
